@@ -97,12 +97,12 @@ def modes_for(sdir):
         "t-junit": ["test", "-d", T, "-o", "junit"],
         "t-console": ["test", "-d", T],
         "t-console-verbose": ["test", "-r", os.path.join(T, "r1.guard"), "-t", os.path.join(T, "tests", "r1_tests.json"), "-v"],
-        "rulegen": ["rulegen", "-t", os.path.join(sdir, "d", "d0.json")],
+        "rulegen": ["rulegen", "-t", os.path.join(sdir, "rg.json")],
         "v-tf-console": ["validate", "-r", os.path.join(sdir, "tf.guard"), "-d", os.path.join(sdir, "tf")],
         "v-tf-console-all": ["validate", "-r", os.path.join(sdir, "tf.guard"), "-d", os.path.join(sdir, "tf"), "-S", "all", "-v"],
         "pt-json-ofile": ["parse-tree", "-r", os.path.join(sdir, "r1.guard"), "-p", "-o", "{OUT}"],
         "pt-yaml-ofile": ["parse-tree", "-r", os.path.join(sdir, "r2.guard"), "-y", "-o", "{OUT}"],
-        "rulegen-ofile": ["rulegen", "-t", os.path.join(sdir, "d", "d0.json"), "-o", "{OUT}"],
+        "rulegen-ofile": ["rulegen", "-t", os.path.join(sdir, "rg.json"), "-o", "{OUT}"],
         "fn-epoch-s-json": ["validate", "-r", os.path.join(sdir, "fn1.guard")] + D + ["--structured", "-S", "none", "-o", "json"],
         "fn-epoch-console": ["validate", "-r", os.path.join(sdir, "fn1.guard")] + D + ["-S", "all"],
         "fn-misc-s-yaml": ["validate", "-r", os.path.join(sdir, "fn2.guard")] + D + ["--structured", "-S", "none", "-o", "yaml"],
@@ -124,6 +124,15 @@ def build_inputs(rng, sdir):
     os.makedirs(os.path.join(sdir, "t", "tests"))
     for i, d in enumerate(docs):
         open(os.path.join(sdir, "d", "d%d.json" % i), "w").write(json.dumps(d, indent=1))
+    # the rulegen template: the first document plus resources whose property values (and property names) differ only in letter case, in
+    # type (5 / "5" / 5.0) or not at all - whatever rulegen sorts or groups by must order them the same way in every run
+    rg = json.loads(json.dumps(docs[0]))
+    variants = ["Private", "private", "PRIVATE", "pRivate", "privatE", "PrivatE"]
+    rng.shuffle(variants)
+    for j, v in enumerate(variants):
+        rg["Resources"]["cv%d" % j] = {"Type": "AWS::S3::Bucket", "Properties": {"AccessControl": v, "Retention": rng.choice([5, "5", 5.0, "05"]),
+                                                                                   rng.choice(["Name", "name", "NAME", "nAme"]): "n%d" % (j % 2)}}
+    open(os.path.join(sdir, "rg.json"), "w").write(json.dumps(rg, indent=1))
     texts = []
     for i in (1, 2):
         while True:
